@@ -175,6 +175,8 @@ def run(chk, repo):
     sym2 = E + "EtherCat.assigned_address"
     g = repo.func(sym2)
     chk.analysed(sym2)
+    if assigned_exec(chk, repo, g, sym2):
+        return assigned_writers(chk, repo)
     rd_ = find("($a,) = await self.roundtrip(ECCmd.APRD, position, 16, "
                "'H', 0)", g, mode="stmt")
     ok = len(rd_) == 1 and isinstance(rd_[0][1]["a"], ast.Name)
@@ -224,6 +226,55 @@ def run(chk, repo):
                 ok = False
     chk.ob("R25.4", sym2, "otherwise writes exactly the free address it "
            "returns", ok, g, "APWR 0x10 <- find_free_address()")
+    assigned_writers(chk, repo)
+
+
+def assigned_exec(chk, repo, g, sym2):
+    """assigned_address() by abstract execution: the station address the
+    terminal reports is returned when it is not 0; otherwise a free address
+    is drawn, written to the terminal (APWR, register 0x10) and returned"""
+    ec = repo.cls(E + "EtherCat")
+    bad = []
+    for cur in (0, 1, 5, 1000, 29999, 65535):
+        for pos in (0, 3, -2):
+            log = []
+
+            def rt(cmd, position, offset, *args, _l=log, _c=cur, **kw):
+                _l.append((getattr(cmd, "name", cmd), position, offset,
+                           args))
+                if getattr(cmd, "name", None) == "APRD":
+                    return (_c,)
+                return ()
+            me = Obj(ec, {"roundtrip": ("hook", rt),
+                          "find_free_address": ("hook", lambda *a: 1234)})
+            try:
+                r = Evaluator(repo, g._module, ec).call_function(
+                    g, [me, pos], cls=ec)
+            except (Unknown, Raised):
+                return False
+            tag = f"terminal at position {pos} reporting address {cur}"
+            rd = [x for x in log if x[0] == "APRD"]
+            wr = [x for x in log if x[0] != "APRD"]
+            if len(rd) != 1 or rd[0][1:3] != (pos, 0x10):
+                bad.append(f"{tag}: reads {rd}")
+            elif cur and (r != cur or wr):
+                bad.append(f"{tag}: returns {r!r}" + (
+                    f" and writes {wr}" if wr else ""))
+            elif not cur and (r != 1234 or wr != [("APWR", pos, 0x10,
+                                                    ("H", 1234))]):
+                bad.append(f"{tag}: returns {r!r}, writes {wr}; a free "
+                           f"address has to be written to this terminal "
+                           f"and returned")
+    chk.ob("R25.4", sym2, "an existing non-zero address is returned "
+           "unchanged; otherwise exactly the free address drawn is written "
+           "and returned (18 cases by abstract execution)", not bad, g,
+           "; ".join(bad[:2]) or "APRD 0x10, then APWR 0x10 <- "
+           "find_free_address() only for address 0")
+    return True
+
+
+def assigned_writers(chk, repo):
+    sym2 = E + "EtherCat.assigned_address"
     writers = []
     for m in repo.production_modules():
         if m.name.endswith("scripts"):
